@@ -880,6 +880,33 @@ func Harness_C33_Expire() {
 	s.checkAll()
 }
 
+// Harness_C33_ExpireTwice: two expiry passes with a registration (or a touch) in between whose
+// activity second is symbolic - in particular EQUAL to a second whose bucket the first pass already
+// expired (an idle connection replayed with its unchanged last-activity second): after the second
+// pass, again, exactly the routes idle for longer than the ttl have disappeared.
+func Harness_C33_ExpireTwice() {
+	s := c33New(1, c33Six, 5, 0)
+	s.noStale = true
+	s.become(0)
+	s.register(0, s.current(0), false, 0, 4, c33SymSeen)
+	s.register(0, s.current(0), false, 1, 4, c33SymSeen)
+	s.opExpire()
+	c33Reach("expire-first-pass")
+	switch zzsym.Choice("between", 3) {
+	case 0:
+		s.register(0, s.current(0), false, 2, 4, c33SymSeen)
+	case 1:
+		// the same connection again (replayed), possibly after it was expired
+		s.register(0, s.current(0), false, 0, 4, c33SymSeen)
+	default:
+		s.opTouchCurrent(0, 1, 4)
+	}
+	s.full = zzsym.Thorough()
+	s.opExpire()
+	c33Reach("expire-second-pass")
+	s.checkAll()
+}
+
 // Harness_C33_LookupOrder: the three connections of uid a and two of uid b are registered in
 // every order (insertion order is what map iteration follows in the executor); the lookups return
 // the same, lessIdentityKey-ascending sequence each time: conn1, conn0, conn2.
